@@ -292,6 +292,8 @@ def classify_path(prog, fn, path, is_tree, roles):
             return 'empty'
     ends = []
     empty_sides = set()
+    path_edges = set(zip(path, path[1:]))
+    disc = {}
     for x, s in conds:
         if emptiness_test(prog, fn, x, is_tree):
             continue                      # "not empty": no information about the keys
@@ -302,9 +304,20 @@ def classify_path(prog, fn, path, is_tree, roles):
                 continue
             if sf == 'other':
                 continue
-        ec = end_compare(prog, fn, b.switch_discr[x], is_tree)
+        d_ = strip(b.switch_discr[x])
+        if d_ is not None and d_.kind == 'phi':
+            # a flag computed on the way (`let append = match last() { Some(l) => l.key < key, None => true }`): the value it
+            # has on this path
+            from evalrel import resolve_phi
+            cand = [strip(v_) for v_ in resolve_phi(d_, path_edges, {})]
+            if len(cand) == 1:
+                d_ = cand[0]
+        if d_ is not None and d_.kind == 'const' and d_.ty == 'bool':
+            continue                      # decided by the path itself
+        disc[x] = d_
+        ec = end_compare(prog, fn, d_, is_tree)
         if ec is None:
-            return 'returns without %s, under a condition the rule cannot relate to the stored keys (%s)' % ('descending' if is_tree else 'searching', show(strip(b.switch_discr[x]), 3))
+            return 'returns without %s, under a condition the rule cannot relate to the stored keys (%s)' % ('descending' if is_tree else 'searching', show(d_, 3))
         ends.append((x, s, ec))
     if not ends:
         return 'returns without %s although the collection is not known to be empty' % ('descending' if is_tree else 'searching')
@@ -319,9 +332,9 @@ def classify_path(prog, fn, path, is_tree, roles):
         for x, s, ec in ends:
             site = {'call': ec[3], 'stored_arg': ec[1], 'method': ec[2]}
             ev = Evaluator(prog, [site], rel)
-            val = ev.ev(strip(b.switch_discr[x]))
+            val = ev.ev(disc.get(x, strip(b.switch_discr[x])))
             if val is None or isinstance(val, tuple):
-                return 'returns without searching, under a comparison the rule cannot evaluate (%s)' % show(strip(b.switch_discr[x]), 3)
+                return 'returns without searching, under a comparison the rule cannot evaluate (%s)' % show(disc.get(x, strip(b.switch_discr[x])), 3)
             t = b.mir['blocks'][x]['term']
             iv = int(val) if isinstance(val, bool) else val
             chosen = t['otherwise']
@@ -335,6 +348,15 @@ def classify_path(prog, fn, path, is_tree, roles):
             feasible.add(rel)
     # the path must give the empty answer: no mutation, and nothing read from the collection reaches the result
     blocks = set(path)
+    if not is_tree and roles == ['INSERT']:
+        # a new element may be placed without the search only where the end comparison already says where it goes: appended when
+        # the last key is strictly below it, put in front when the first key is strictly above it
+        muts = [c for c in b.calls if c.point[0] in blocks and c.callee_name() in ('insert', 'remove', 'swap_remove', 'push', 'clear', 'retain', 'truncate') and c.args and buffer_of(prog, c.args[0]) == ('buffer',)]
+        if len(muts) == 1 and muts[0].callee_name() == 'push' and which == 'last' and feasible <= {'<', '='}:        # equal keys are excluded by the contract (a key is inserted only while absent)
+            return 'decided-ok'
+        if len(muts) == 1 and muts[0].callee_name() == 'insert' and which == 'first' and feasible <= {'>', '='} and len(muts[0].args) >= 2 and strip(muts[0].args[1]).is_const(0):
+            return 'decided-ok'
+        return 'INSERT: places the new element without the search where the end comparison does not settle its position (%s element %s the new key, buffer calls %s)' % (which, '/'.join(sorted(feasible)), [c.callee_name() for c in muts])
     if not is_tree:
         for c in b.calls:
             if c.point[0] in blocks and c.callee_name() in ('insert', 'remove', 'swap_remove', 'push', 'get_unchecked', 'get_unchecked_mut', 'get', 'get_mut') and c.args and buffer_of(prog, c.args[0]) == ('buffer',):
